@@ -56,7 +56,15 @@ func c13Decorate(r *rand.Rand, in *DataInput) {
 					m.Params = append([]VarJ{{Name: fmt.Sprintf("rp%d", k), Type: s}}, m.Params...)
 				}
 				if r.Intn(3) == 0 {
-					m.Results = append(m.Results, VarJ{Name: resultName(m), Type: s})
+					if r.Intn(2) == 0 {
+						m.Results = append(m.Results, VarJ{Name: resultName(m), Type: s})
+					} else {
+						// a replaced result followed by results of unnamed types
+						m.Results = append([]VarJ{{Name: resultName(m), Type: s}}, m.Results...)
+						if r.Intn(2) == 0 {
+							m.Results = append(m.Results, VarJ{Name: resultName(m), Type: pick(r, []TyJ{basicT("bool"), {K: "slice", Elem: &TyJ{K: "basic", Name: "byte"}}, basicT("int")})})
+						}
+					}
 				}
 				if r.Intn(4) == 0 {
 					ss := s
